@@ -34,9 +34,9 @@ def run(ctx):
     ]
     exhaustive = True
 
-    def parse_run(cfg, label, mode="bfs", num=None, depth=None, timeout=900):
+    def parse_run(cfg, label, mode="bfs", num=None, depth=None, timeout=900, env=None):
         r = ctx.generate("Pql", cfg, mode=mode, num=num, depth=depth, timeout=timeout)
-        ctx.drive("bind/wireb", "TestC26Parse", beh=r.behaviours, label="C26/parse/" + label, timeout=1500)
+        ctx.drive("bind/wireb", "TestC26Parse", beh=r.behaviours, env=env, label="C26/parse/" + label, timeout=1500)
 
     def fwd_run(cfg, label, mode="bfs", num=None, depth=None, timeout=900):
         r = ctx.generate("Pql", cfg, mode=mode, num=num, depth=depth, timeout=timeout)
@@ -44,20 +44,19 @@ def run(ctx):
 
     # every single-argument call of every form over the full value universe
     parse_run("C26_d1_full", "d1_full")
+    # (the same run holds Pairs(k1=v1, k2=v2): every ordered pair of 17 value kinds)
     if thorough:
-        # nesting: every call / child / argument-call shape over the tiny universe
-        parse_run("C26_d2_tiny2", "d2_tiny2")
-        # every ordered pair of argument values (parser state leaking from one argument to the next)
-        parse_run("C26_d1_mid2", "d1_mid2", timeout=1200)
-        parse_run("C26_sim", "sim_full", mode="simulate", num=120, depth=14, timeout=900)
+        # nesting: every call / one or two children / argument-call shape over the tiny universe
+        # (76 k behaviours: replayed under the reduced variant set)
+        parse_run("C26_d2_tiny2", "d2_tiny2", env={"VERIF_FEW_VARIANTS": 1})
     # deeper / wider queries: nest 3, three calls, three arguments (seeded sample); in the quick tier this
-    # is also what covers nesting and argument pairs
-    parse_run("C26_sim_mid", "sim_mid", mode="simulate", num=300 if thorough else 40, depth=16)
+    # is also what covers nesting
+    parse_run("C26_sim_mid", "sim_mid", mode="simulate", num=150 if thorough else 40, depth=16)
     exhaustive = False
 
     fwd_run("C26_fwd_full", "d1_full")
     if thorough:
-        fwd_run("C26_fwd_sim", "sim", mode="simulate", num=100, depth=14)
+        fwd_run("C26_fwd_sim", "sim", mode="simulate", num=60, depth=14)
 
     ctx.drive("bind/wireb", "TestC26Cluster", label="C26/cluster", timeout=900)
     ctx.exhaustive = exhaustive
